@@ -819,4 +819,19 @@ def in_fragment(rules):
             for v in o:
                 walk(v)
     walk(rules)
+    # 'g = (bool)' is a TYPE rule for the parser (a parenthesised type); as the base of '//=' increments the text would mix a type
+    # rule with group increments: a group name with several definitions must not have such a body (rendering ambiguity, not a finding)
+    names = {}
+    for r in rules:
+        if isinstance(r, dict) and r.get("kind") == "group" and isinstance(r.get("e"), dict) and "k" in r["e"]:
+            names.setdefault(r["name"], []).append(r)
+    for rs in names.values():
+        if len(rs) > 1:
+            for r in rs:
+                e = r["e"]
+                alts = e["g"]["galts"] if e["k"] == "sub" else [[e]]
+                if e.get("lo", 1) == 1 and e.get("hi", 1) == 1 and len(alts) == 1 and len(alts[0]) == 1:
+                    x = alts[0][0]
+                    if x["k"] in ("ent", "name") and x.get("lo") == 1 and x.get("hi") == 1 and (x["k"] == "name" or x["key"]["kk"] == "none"):
+                        ok[0] = False
     return ok[0]
